@@ -9,8 +9,8 @@ import z3
 
 from . import poly
 
-Z3_TIMEOUT_MS = int(os.environ.get('PYVC_Z3_TIMEOUT_MS', '30000'))
-CVC5_TIMEOUT_S = int(os.environ.get('PYVC_CVC5_TIMEOUT_S', '90'))
+Z3_TIMEOUT_MS = int(os.environ.get('PYVC_Z3_TIMEOUT_MS', '60000'))
+CVC5_TIMEOUT_S = int(os.environ.get('PYVC_CVC5_TIMEOUT_S', '120'))
 CVC5 = '/usr/bin/cvc5'
 FORCE_SOLVER = os.environ.get('PYVC_FORCE_SOLVER', '') == '1'
 
